@@ -121,6 +121,9 @@ func drawCase(t *rapid.T) Case {
 		maxPatches, allowAOnly = 1, false
 	}
 	c.Config = rapid.SampledFrom([]string{"rep", "rep", "rep", "both", "both", "pubsub"}).Draw(t, "config")
+	if only := os.Getenv("C15_ONLY_CONFIG"); only != "" {
+		c.Config = only // targeted campaigns while developing
+	}
 	c.NDocs = rapid.IntRange(1, 4).Draw(t, "ndocs")
 	c.Boot = rapid.IntRange(0, 3).Draw(t, "boot") == 0
 	// two more known findings with a switch each: branchable collections, pubsub disabled on A
